@@ -2268,7 +2268,7 @@ impl<K, V, S> Inner<K, V, S> {
         }
     }
 
-//@@ FN file=src/sync/base_cache.rs owner=Inner name=apply_reads tags=C12,C14,C06
+//@@ FN file=src/sync/base_cache.rs owner=Inner name=apply_reads tags=C12,C14,C06 rewrites=for2while
     fn apply_reads(&self, deqs: &mut Deques<K>, count: usize)
         requires //@
             // quiescent state: a queued hit on an admitted entry names a node of the probation list
@@ -2284,17 +2284,18 @@ impl<K, V, S> Inner<K, V, S> {
         let mut freq = self.frequency_sketch.write().expect("lock poisoned");
         let ch = &self.read_op_ch;
         let ghost p0 = deqs.probation@; let ghost f0 = freq@; let ghost mut log: Seq<ReadOp<K, V>> = Seq::empty(); //@
-        for _ in /*@+*/it:/*@-*/ 0..count
+        let mut _fi0: usize = 0; while _fi0 < count
             invariant //@
                 *ch == self.read_op_ch, //@
                 forall|op: ReadOp<K, V>| #[trigger] self.read_op_ch.sp_queued(op) ==> Self::rd_wf(op, p0), //@
                 Self::same_ids(p0, deqs.probation@), //@ [C11]
                 deqs.others_same(old(deqs)), deqs.write_order@ == old(deqs).write_order@, deqs.same_regions(old(deqs)), //@ [C12]
-                log.len() <= it.index@, forall|i: int| 0 <= i < log.len() ==> self.read_op_ch.sp_queued(#[trigger] log[i]), //@
+                log.len() <= _fi0, _fi0 <= count, forall|i: int| 0 <= i < log.len() ==> self.read_op_ch.sp_queued(#[trigger] log[i]), //@
                 deqs.probation@ == Self::rd_replay(p0, log), //@ [C12,C15]
                 // C14: every applied record, hit or miss, is counted exactly once in the popularity estimator
                 freq@ == Self::rd_sketch(f0, log), //@ [C14]
-        {
+            decreases count - _fi0 //@
+        { _fi0 += 1;
             match ch.try_recv() {
                 Ok(Hit(hash, entry, timestamp)) => {
                     proof { //@
@@ -2379,7 +2380,7 @@ impl<K, V, S> Inner<K, V, S> {
         }
     }
 
-//@@ FN file=src/sync/base_cache.rs owner=Inner name=apply_writes tags=C10,C04,C12,C13
+//@@ FN file=src/sync/base_cache.rs owner=Inner name=apply_writes tags=C10,C04,C12,C13 rewrites=for2while
     fn apply_writes(&self, deqs: &mut Deques<K>, count: usize, counters: &mut EvictionCounters)
         requires //@
             count <= 1, //@
@@ -2396,14 +2397,15 @@ impl<K, V, S> Inner<K, V, S> {
         let ch = &self.write_op_ch;
         let ghost d0 = *deqs; let ghost c0 = *counters; //@
 
-        for _ in /*@+*/it:/*@-*/ 0..count
+        let mut _fi0: usize = 0; while _fi0 < count
             invariant //@
                 *ch == self.write_op_ch, count <= 1, //@
-                it.index@ == 0 ==> *deqs == d0 && *counters == c0, //@
+                _fi0 == 0 ==> *deqs == d0 && *counters == c0, _fi0 <= count, //@
                 forall|op: WriteOp<K, V>| #[trigger] self.write_op_ch.sp_queued(op) ==> self.wr_pre(op, d0, c0), //@
                 (*deqs == d0 && *counters == c0) //@ [C10,C04,C12,C13,C03]
                 || exists|op: WriteOp<K, V>, sk: FrequencySketch| #[trigger] self.write_op_ch.sp_queued(op) && #[trigger] self.wr_post(op, d0, c0, *deqs, *counters, sk), //@ [C10,C04,C12,C13,C03]
-        {
+            decreases count - _fi0 //@
+        { _fi0 += 1;
             match ch.try_recv() {
                 Ok(Upsert {
                     key_hash: kh,
